@@ -69,13 +69,14 @@ Lemma default_ledger : forall t l r e l' a, default_value_for t l = (r, e, l') -
   net l' a = net l a + oind r a.
 Proof.
   intros t l r e l' a H. unfold default_value_for in H.
-  destruct (t_dflt t) as [d | [x|]].
+  destruct (t_dflt t) as [d | [x|] |].
   - inversion H; subst; led; lia.
   - destruct (t_has_validate t) eqn:Hv.
     + destruct (validate t x (inc x l)) as [[w e1] l2] eqn:V.
       pose proof (validate_ledger _ _ _ _ _ _ a V) as HV.
       destruct w as [w|]; destruct (t_orig t); inversion H; subst; led; lia.
     + inversion H; subst; led; lia.
+  - inversion H; subst; led; lia.
   - inversion H; subst; led; lia.
 Qed.
 
@@ -88,7 +89,10 @@ Proof.
 Qed.
 
 Ltac dchanged :=
-  match goal with |- context[if (t_cmp_none ?t || ?x) then _ else _] => destruct (t_cmp_none t || x) end.
+  match goal with
+  | |- context[if (t_cmp_none ?t || ?x || ?y) then _ else _] => destruct (t_cmp_none t || x || y)
+  | |- context[if (t_cmp_none ?t || ?x) then _ else _] => destruct (t_cmp_none t || x)
+  end.
 
 Definition balanced (d : dict) (l0 : ledger) (r : res) : Prop :=
   forall a, net (r_ledger r) a = net l0 a + occ (r_dict r) a - occ d a + oind (r_ret r) a.
@@ -234,7 +238,7 @@ Qed.
 Lemma getattr_prop_balanced : forall c t d n, balanced d [] (getattr_prop c t d n).
 Proof.
   intros c t d n a. unfold getattr_prop; cbv zeta.
-  destruct (t_dflt t) as [x | [x|]]; simpl; led; lia.
+  destruct (t_dflt t) as [x | [x|] |]; simpl; led; lia.
 Qed.
 
 Lemma run_setter_ledger : forall c t d n v l d' ok l' a, run_setter c t d n v l = (d', ok, l') ->
@@ -323,7 +327,7 @@ Proof.
     { unfold do_get. destruct (lookup d n); simpl; try discriminate.
       destruct (t_kind t); simpl; try discriminate; apply getattr_trait_no_crash. }
     destruct (t_kind t); try exact G.
-    unfold getattr_prop; cbv zeta. destruct (t_dflt t) as [x | [x|]]; simpl; discriminate.
+    unfold getattr_prop; cbv zeta. destruct (t_dflt t) as [x | [x|] |]; simpl; discriminate.
   - destruct (t_kind t); simpl; try discriminate.
     unfold delattr_trait. destruct (lookup d n) as [o|]; simpl; try discriminate.
     destruct (has_notifiers t); simpl; try discriminate.
